@@ -8,6 +8,7 @@ import (
 	"os"
 	"sort"
 	"strings"
+	"sync"
 	"testing"
 	"time"
 
@@ -29,9 +30,11 @@ type DKGCase struct {
 	// RogueChain: the rogue client appends the public certificate of instance 2 (a peer) to the chain it presents
 	RogueChain bool `json:"rogue_chain,omitempty"`
 	// Conflict: after a successful generation two conflicting duties are routed over the participants.
-	Conflict string  `json:"conflict"` // double-vote | a-surrounds-b | b-surrounds-a | two-blocks
-	Routing  [][]int `json:"routing"`  // per participant: ordered duties (0 = A, 1 = B)
-	Restart  int     `json:"restart"`  // -1 or the participant restarted (SIGKILL) between generation and use
+	Conflict string `json:"conflict"` // double-vote | double-vote-target-root (the two votes differ in the target checkpoint root only) | a-surrounds-b | b-surrounds-a | two-blocks
+	// Concurrent: every delivery of the routing is sent at the same moment instead of one after the other
+	Concurrent bool    `json:"concurrent,omitempty"`
+	Routing    [][]int `json:"routing"` // per participant: ordered duties (0 = A, 1 = B)
+	Restart    int     `json:"restart"` // -1 or the participant restarted (SIGKILL) between generation and use
 }
 
 var dkgPropertyOf = map[string]string{
@@ -290,35 +293,62 @@ func runDKG(c *DKGCase, only string) (*dkgOutcome, *vkit.Violation, error) {
 		return &pb.SignBeaconAttestationRequest{Id: &pb.SignBeaconAttestationRequest_Account{Account: account}, Domain: domain("attester", "attest"),
 			Data: &pb.AttestationData{Slot: 1, BeaconBlockRoot: root(salt, 1), Source: &pb.Checkpoint{Epoch: src, Root: root(0, 2)}, Target: &pb.Checkpoint{Epoch: tgt, Root: root(0, 3)}}}
 	}
+	attTgtRoot := func(src, tgt uint64, salt uint64) *pb.SignBeaconAttestationRequest {
+		r := att(src, tgt, 1)
+		r.Data.Target.Root = root(salt, 3)
+
+		return r
+	}
 	prop := func(salt uint64) *pb.SignBeaconProposalRequest {
 		return &pb.SignBeaconProposalRequest{Id: &pb.SignBeaconProposalRequest_Account{Account: account}, Domain: domain("proposer", "propose"),
 			Data: &pb.BeaconBlockHeader{Slot: 9, ProposerIndex: 1, ParentRoot: root(salt, 4), StateRoot: root(0, 5), BodyRoot: root(0, 6)}}
 	}
 	signedBy := [2]map[uint64]bool{{}, {}}
+	var sbMu sync.Mutex
+	var deliverErr error
+	deliver := func(m member, dty int) {
+		sresp := &pb.SignResponse{}
+		var err error
+		switch c.Conflict {
+		case "double-vote":
+			err = m.d.Invoke(Cred{CN: "alice", Issuer: "ca"}, "/v1.Signer/SignBeaconAttestation", att(10, 12, uint64(1+dty)), sresp)
+		case "double-vote-target-root":
+			err = m.d.Invoke(Cred{CN: "alice", Issuer: "ca"}, "/v1.Signer/SignBeaconAttestation", attTgtRoot(10, 12, uint64(1+dty)), sresp)
+		case "a-surrounds-b":
+			err = m.d.Invoke(Cred{CN: "alice", Issuer: "ca"}, "/v1.Signer/SignBeaconAttestation", [2]*pb.SignBeaconAttestationRequest{att(10, 15, 1), att(11, 14, 2)}[dty], sresp)
+		case "b-surrounds-a":
+			err = m.d.Invoke(Cred{CN: "alice", Issuer: "ca"}, "/v1.Signer/SignBeaconAttestation", [2]*pb.SignBeaconAttestationRequest{att(11, 14, 1), att(10, 15, 2)}[dty], sresp)
+		default:
+			err = m.d.Invoke(Cred{CN: "alice", Issuer: "ca"}, "/v1.Signer/SignBeaconProposal", prop(uint64(1+dty)), sresp)
+		}
+		sbMu.Lock()
+		defer sbMu.Unlock()
+		if err != nil {
+			deliverErr = fmt.Errorf("duty on %d: %v", m.id, err)
+
+			return
+		}
+		if sresp.GetState() == pb.ResponseState_SUCCEEDED && len(sresp.GetSignature()) > 0 {
+			signedBy[dty][m.id] = true
+		}
+	}
+	var dwg sync.WaitGroup
 	for i, m := range members {
 		if i >= len(c.Routing) {
 			break
 		}
 		for _, dty := range c.Routing[i] {
-			sresp := &pb.SignResponse{}
-			var err error
-			switch c.Conflict {
-			case "double-vote":
-				err = m.d.Invoke(Cred{CN: "alice", Issuer: "ca"}, "/v1.Signer/SignBeaconAttestation", att(10, 12, uint64(1+dty)), sresp)
-			case "a-surrounds-b":
-				err = m.d.Invoke(Cred{CN: "alice", Issuer: "ca"}, "/v1.Signer/SignBeaconAttestation", [2]*pb.SignBeaconAttestationRequest{att(10, 15, 1), att(11, 14, 2)}[dty], sresp)
-			case "b-surrounds-a":
-				err = m.d.Invoke(Cred{CN: "alice", Issuer: "ca"}, "/v1.Signer/SignBeaconAttestation", [2]*pb.SignBeaconAttestationRequest{att(11, 14, 1), att(10, 15, 2)}[dty], sresp)
-			default:
-				err = m.d.Invoke(Cred{CN: "alice", Issuer: "ca"}, "/v1.Signer/SignBeaconProposal", prop(uint64(1+dty)), sresp)
-			}
-			if err != nil {
-				return o, nil, fmt.Errorf("duty on %d: %v", m.id, err)
-			}
-			if sresp.GetState() == pb.ResponseState_SUCCEEDED && len(sresp.GetSignature()) > 0 {
-				signedBy[dty][m.id] = true
+			if c.Concurrent {
+				dwg.Add(1)
+				go func(m member, dty int) { defer dwg.Done(); deliver(m, dty) }(m, dty)
+			} else {
+				deliver(m, dty)
 			}
 		}
+	}
+	dwg.Wait()
+	if deliverErr != nil {
+		return o, nil, deliverErr
 	}
 	o.signed = [2]int{len(signedBy[0]), len(signedBy[1])}
 	o.trace = append(o.trace, fmt.Sprintf("duties signed by %d and %d participants", o.signed[0], o.signed[1]))
@@ -339,12 +369,15 @@ func TestE2EDKG(t *testing.T) {
 		if err := json.Unmarshal(r.Case, &c); err != nil {
 			t.Fatalf("bad replay case: %v", err)
 		}
-		o, v, err := runDKG(&c, only)
-		if err != nil {
-			t.Fatalf("replay infrastructure error: %v", err)
+		// races, bursts and concurrent deliveries depend on timing: a replay gets five attempts
+		for attempt := 0; attempt < 5; attempt++ {
+			o, v, err := runDKG(&c, only)
+			if err != nil {
+				t.Fatalf("replay infrastructure error: %v", err)
+			}
+			t.Logf("replay: trace=%v", o.trace)
+			vkit.Report(t, only, "TestE2EDKG", &c, v)
 		}
-		t.Logf("replay: trace=%v", o.trace)
-		vkit.Report(t, only, "TestE2EDKG", &c, v)
 	}
 	if vkit.ReplayOnly() {
 		return
@@ -365,7 +398,8 @@ func TestE2EDKG(t *testing.T) {
 			c.Rogue = rapid.SampledFrom([]string{"prepare", "execute", "commit", "abort", "contribute"}).Draw(rt, "rogue_kind")
 			c.RogueChain = rapid.Bool().Draw(rt, "rogue_chain")
 		}
-		c.Conflict = rapid.SampledFrom([]string{"double-vote", "a-surrounds-b", "b-surrounds-a", "two-blocks"}).Draw(rt, "conflict")
+		c.Conflict = rapid.SampledFrom([]string{"double-vote", "double-vote-target-root", "double-vote-target-root", "a-surrounds-b", "b-surrounds-a", "two-blocks"}).Draw(rt, "conflict")
+		c.Concurrent = rapid.Bool().Draw(rt, "concurrent")
 		for i := 0; i < int(c.N); i++ {
 			c.Routing = append(c.Routing, rapid.SampledFrom([][]int{{0, 1}, {1, 0}, {i % 2, 1 - i%2}, {i % 2}, {0, 1, 0}}).Draw(rt, "route"))
 		}
@@ -384,6 +418,9 @@ func TestE2EDKG(t *testing.T) {
 			vkit.S.Class(fmt.Sprintf("e2e:generation-n%d-t%d", c.N, c.T))
 			if c.Restart >= 0 {
 				vkit.S.Class("e2e:participant-restarted-after-generation")
+			}
+			if c.Concurrent {
+				vkit.S.Class("e2e:conflicting-duties-delivered-at-the-same-moment")
 			}
 			if o.signed[0] >= int(c.T) || o.signed[1] >= int(c.T) {
 				vkit.S.Class("e2e:one-duty-reached-threshold-between-daemons")
